@@ -235,8 +235,8 @@ def gen_malformed(rng):
         ty = rng.choice([ity, 'bool', ['char', iso], ['str', iso], ['fixed', iso, 3, False],
                          ['arr', ['int', 1, False, False], 2, True, False], ['record', [1, ity, 'none']], ['optrec', [1, ity, 'none']]])
         v = rng.choice(['none', ['i', 5], ['i', 0], ['b', True], ['s', 97, 98], ['s'], ['l'], ['l', ['i', 1]]])
-        if kind(ty) == 'arr' and v != 'none' and v[0] == 's':
-            v = ['l']
+        if kind(ty) == 'arr' and v != 'none' and v[0] == 's' and rng.random() < 0.5:
+            ty = ['arr', ['char', iso], 2, False, rng.random() < 0.5]      # a str is iterable: an array of its characters
         return ty, v
     if c == 4:     # record slot holding None / record with a bad field
         inner = ['record', [1, ity, 'none'], [2, ['str', iso], 'none']]
